@@ -36,6 +36,9 @@ EXC_PARENTS = {
 # dict: 0 bytes -> EOFError, 1 byte -> UnpicklingError, longer prefixes ->
 # RuntimeError or OSError(EINVAL))
 PARTIAL_LOAD_ERRORS = ["EOFError", "UnpicklingError", "RuntimeError", "OSError"]
+# pickle.load of a truncated pickle stream (a prefix of a valid sampler pickle; checked over every prefix length of a
+# real checkpoint): EOFError ("Ran out of input") or UnpicklingError ("pickle data was truncated") only
+PICKLE_PARTIAL_LOAD_ERRORS = ["EOFError", "UnpicklingError"]
 
 MOVE_CALLS = {"shutil.move", "os.replace", "os.rename"}
 REMOVE_CALLS = {"os.remove", "os.unlink"}
@@ -344,7 +347,7 @@ class Interp:
             raise AnalysisError(f"{self.fi.qual}: bare open() outside a with-statement is outside the R-FS fragment: `{src(c)}`")
         return [(st, None)]
 
-    def load(self, a, st, what):
+    def load(self, a, st, what, errors=None):
         if not isinstance(a, Path):
             raise AnalysisError(f"{self.fi.qual}: cannot resolve path of `{what}`")
         self.ops_seen.append(f"LOAD({a.name})")
@@ -354,7 +357,7 @@ class Interp:
             return [(st, ("raise", "FileNotFoundError"))]
         if cur[0] == "partial":
             outs = []
-            for exc in PARTIAL_LOAD_ERRORS:
+            for exc in (errors or PARTIAL_LOAD_ERRORS):
                 s1 = st.clone()
                 s1.trace.append(f"LOAD({a.name}): partial -> {exc}")
                 outs.append((s1, ("raise", exc)))
@@ -422,7 +425,8 @@ class Interp:
                 return [(st, ("raise", "FileNotFoundError"))]
             if not loads:
                 return self.block(s.body, st)
-            outs = self.load(p, st, f"load via open({p.name})")
+            only_pickle = all((call_name(n) or "") in ("pickle.load", "dill.load") for n in loads)
+            outs = self.load(p, st, f"load via open({p.name})", errors=PICKLE_PARTIAL_LOAD_ERRORS if only_pickle else None)
             res = []
             for s1, sig in outs:
                 if sig is None:
